@@ -17,7 +17,7 @@ def replay(module: str, oid: str, witness: dict) -> dict:
     from .sym import Ctx, ReplayOutOfBounds
 
     mod = importlib.import_module(module)
-    obs = [o for o in mod.obligations('thorough') if o.oid == oid]
+    obs = [o for o in mod.obligations('thorough') if o.oid == oid] or [o for o in mod.obligations('quick') if o.oid == oid]
     if not obs:
         return {'failures': None, 'error': f'no obligation {oid} in {module}'}
     ob = obs[0]
